@@ -165,9 +165,21 @@ Fixpoint struct_to_map (v : val) : val :=
   end.
 Definition to_env (v : val) : val := match v with VStruct _ | VPtr _ => struct_to_map v | x => x end.
 Fixpoint deref (v : val) : val := match v with VPtr (Some x) => deref x | x => x end.
+(* PopulateStructFields: what the root data contributes to the environment, in the order
+   it is offered (a name already bound is never overwritten, so the first entry wins):
+   every exported field under its json name (Go name when untagged) and under its Go
+   name; the entries of a string-keyed map *)
+Definition conv (x : val) : val := match x with VStruct _ | VPtr _ => struct_to_map x | y => y end.
+Definition field_entries (f : bytes * bytes * bool * val) : list (bytes * val) :=
+  if f_exported f
+  then (env_key f, conv (f_val f)) ::
+       (if bytes_eqb (f_name f) (env_key f) then [] else [(f_name f, conv (f_val f))])
+  else [].
 Definition root_fields (r : val) : list (bytes * val) :=
   match deref r with
-  | VStruct fs => match struct_to_map (VStruct fs) with VMap m => m | _ => [] end
+  | VStruct fs => flat_map field_entries fs
+  | VMap m => m
+  | VMapS m => map (fun kv => (fst kv, VStr (snd kv))) m
   | _ => []
   end.
 Definition overlay (base top : scope) : scope := fold_left (fun acc kv => put acc (fst kv) (snd kv)) top base.
@@ -199,8 +211,20 @@ Definition get_map (s : stack) (p : bytes) : option (list (bytes * val)) :=
   | Some (VMapS m) => Some (map (fun kv => (fst kv, VStr (snd kv))) m)
   | _ => None
   end.
+(* ForEach: sequences in index order; maps in unspecified order, observed as the sorted
+   multiset of printed values *)
+Fixpoint ins_b (x : bytes) (l : list bytes) : list bytes :=
+  match l with [] => [x] | y :: r => if bytes_leb x y then x :: l else y :: ins_b x r end.
+Definition sort_b (l : list bytes) : list bytes := fold_right ins_b [] l.
 Definition for_each (s : stack) (p : bytes) : list val :=
   match resolve s p with Some (VList l) | Some (VArr l) => l | _ => [] end.
+Definition for_each_map (s : stack) (p : bytes) : option (list bytes) :=
+  match resolve s p with
+  | Some (VMap m) => Some (sort_b (map (fun kv => show_obs (obs_of_val (snd kv))) m))
+  | Some (VMapS m) => Some (sort_b (map (fun kv => show_obs (obs_of_val (VStr (snd kv)))) m))
+  | Some (VMapI m) => Some (sort_b (map (fun kv => show_obs (obs_of_val (snd kv))) m))
+  | _ => None
+  end.
 
 (* ---- histories over several stacks (Copy creates a new one) ---- *)
 Inductive op :=
